@@ -1,6 +1,7 @@
 """C16 - compression round-trips under re-chunking and flags truncated streams."""
 import gzip
 import io
+import itertools
 import random
 
 import zstandard
@@ -42,6 +43,7 @@ def _inputs():
         'compressible-240': [b'hello world ' * 10, b'hello world ' * 10],
         'incompressible-70000': [incompressible[:30000], incompressible[30000:]],
         'compressible-400000': [(b'0123456789abcdef' * 25000)],
+        'compressible-3MiB': [b'2026-10-02 12:00:00 INFO request handled in 12 ms\n' * 20000] * 3,
     }
 
 
@@ -102,6 +104,8 @@ def run_case(case, acc):
         cutsets = [()] + [(p,) for p in pos] + [(p, q) for i, p in enumerate(pos) for q in pos[i + 1:]]
         if len(data) > 100000:
             cutsets = cutsets[::3]
+        if len(data) > 1000000:
+            cutsets = [()] + [(p,) for p in pos[::4]] + [tuple(sorted(set(itertools.accumulate(len(c) for c in sink.items))))[:-1]]
     seen_err = set()
 
     def report(sym, detail):
